@@ -268,6 +268,7 @@ func (r *rewriter) rewriteGo(g *ast.GoStmt) ast.Stmt {
 
 func (r *rewriter) rewriteSelect(s *ast.SelectStmt, isLabeled bool) ast.Stmt {
 	var chans []ast.Expr
+	var hoist []ast.Stmt
 	for _, cl := range s.Body.List {
 		cc := cl.(*ast.CommClause)
 		if cc.Comm == nil {
@@ -298,8 +299,10 @@ func (r *rewriter) rewriteSelect(s *ast.SelectStmt, isLabeled bool) ast.Stmt {
 			return nil
 		}
 		if !pure(unwrapAll(u.X)) {
-			r.errorf(u.Pos(), "select on a channel expression with side effects is not simulated")
-			return nil
+			// e.g. case <-time.After(d): evaluate the channel once, before the select
+			name := fmt.Sprintf("simch%d_%d", r.fset.Position(s.Pos()).Line, len(hoist))
+			hoist = append(hoist, &ast.AssignStmt{Lhs: []ast.Expr{ident(name)}, Tok: token.DEFINE, Rhs: []ast.Expr{u.X}})
+			u.X = ident(name)
 		}
 		chans = append(chans, u.X)
 	}
@@ -311,7 +314,8 @@ func (r *rewriter) rewriteSelect(s *ast.SelectStmt, isLabeled bool) ast.Stmt {
 		return nil
 	}
 	r.addSite(s.Pos(), "select", fmt.Sprintf("%d receive cases", len(chans)))
-	return &ast.BlockStmt{List: []ast.Stmt{&ast.ExprStmt{X: rtCall("BeforeRecv", chans...)}, s}}
+	list := append(hoist, &ast.ExprStmt{X: rtCall("BeforeRecv", chans...)}, s)
+	return &ast.BlockStmt{List: list}
 }
 
 // unwrapRace strips *simrt.R(&x, n) wrappers (for the purity test).
